@@ -36,4 +36,8 @@ MUTANTS = [
     {"id": "c20-val-cached-property", "prop": "C20", "rule": "R3", "key": "memoised-on-mutable", "edits": [{"file": U, "old": "from math import exp,", "new": "from functools import cached_property\nfrom math import exp,"}, {"file": U, "old": "    @property\n    def val(self) -> float:\n        try:\n            return exp(self.log_val)", "new": "    @cached_property\n    def val(self) -> float:\n        try:\n            return exp(self.log_val)"}]},
     m("c20-val-lazy-slot", "R3", "    def val(self) -> float:\n        try:\n            return exp(self.log_val)", "    def val(self) -> float:\n        if getattr(self, \"_val\", None) is not None:\n            return self._val\n        try:\n            self._val = exp(self.log_val)\n            return self._val", key="memoised-on-mutable"),
     m("c20-twin-val-local", None, "    def val(self) -> float:\n        try:\n            return exp(self.log_val)", "    def val(self) -> float:\n        log_val = self.log_val\n        try:\n            return exp(log_val)", twin=True),
+    m("c20-cmp-safe-log-gt", "R2", "            return self.log_val > other.log_val\n        return self.val > other", "            return self.log_val > other.log_val\n        return self.log_val > (log(other) if other > 0 else -inf)"),
+    m("c20-twin-cmp-safe-log-lt", None, "            return self.log_val < other.log_val\n        return self.val < other", "            return self.log_val < other.log_val\n        return self.log_val < (log(other) if other > 0 else -inf)", twin=True),
+    m("c20-twin-cmp-log-space", None, "            return self.log_val < other.log_val\n        return self.val < other", "            return self.log_val < other.log_val\n        return other > 0 and self.log_val < log(other)", twin=True),
+    m("c20-twin-cmp-swapped", None, "            return self.log_val >= other.log_val\n        return self.val >= other", "            return other.log_val <= self.log_val\n        return other <= self.val", twin=True),
 ]
